@@ -54,7 +54,11 @@ func qualTypeName(t types.Type) string {
 
 func (p *Path) call(in ssa.Instruction, cc *ssa.CallCommon, mode string) Val {
 	if b, ok := cc.Value.(*ssa.Builtin); ok {
-		return p.builtin(in, b, cc)
+		p.fx.site(in, "call("+b.Name()+")")
+		p.siteGhosts(in, "before")
+		r := p.builtin(in, b, cc)
+		p.siteGhosts(in, "after")
+		return r
 	}
 	if fn, ok := cc.Value.(*ssa.Function); ok && mode == "call" {
 		switch specKeyOf(fn) {
@@ -306,6 +310,7 @@ func (p *Path) applySpec(in ssa.Instruction, site string, spec *FuncSpec, what s
 	if spec.MayPanic && mode != "defer" {
 		q := p.fork()
 		q.setGhost("panicking", tBool, "true")
+		q.setGhost("panicSeen", tBool, "true")
 		pv := q.fx.fresh("pval")
 		q.declare(pv, "Iface")
 		q.assume(fmt.Sprintf("(not (= %s iface_nil))", pv))
@@ -499,6 +504,41 @@ func (p *Path) havocAllExcept(spec *FuncSpec, exc map[string][]string) {
 	for _, k := range keeps {
 		p.assume(fmt.Sprintf("(= %s %s)", p.loadIn(&p.st, k.addr, k.t, false), k.old))
 	}
+}
+
+// isStackCell: a local variable's cell whose address is only used for loads, stores and closure capture (it may be
+// shared with closures of this function, but is never handed to other code as a value). Such cells get ftag -5;
+// `modifies region(pred)` never covers them: a callee can change a caller's variable only through a closure it is
+// handed, and contracts of such higher-order callees must say so explicitly.
+func isStackCell(a *ssa.Alloc) bool {
+	var ok func(v ssa.Value, depth int) bool
+	ok = func(v ssa.Value, depth int) bool {
+		if depth > 4 {
+			return false
+		}
+		for _, r := range *v.Referrers() {
+			switch u := r.(type) {
+			case *ssa.UnOp, *ssa.DebugRef:
+			case *ssa.Store:
+				if u.Val == v {
+					return false
+				}
+			case *ssa.MakeClosure:
+			case *ssa.FieldAddr:
+				if !ok(u, depth+1) {
+					return false
+				}
+			case *ssa.IndexAddr:
+				if !ok(u, depth+1) {
+					return false
+				}
+			default:
+				return false
+			}
+		}
+		return true
+	}
+	return ok(a, 0)
 }
 
 // allocEscapes: the address of a local is used other than as the direct target of loads and stores.
